@@ -2,8 +2,8 @@
 
 PROP = dict(
     level="proof",
-    lean_modules=['PopsModel.Props.C04', 'PopsModel.Props.NonVacuous.Host'],
-    theorems=['Pops.C04_generation', 'Pops.C04_soil_split', 'Pops.C04_soil_ages_out', 'Pops.C04_each_disperser_once', 'Pops.C04_ledger_cell', 'Pops.C04_ledger'],
+    lean_modules=['PopsModel.Props.C04', 'PopsModel.Props.NonVacuous.Host', 'PopsModel.Props.C04Pest'],
+    theorems=['Pops.C04_generation', 'Pops.C04_soil_split', 'Pops.C04_soil_ages_out', 'Pops.C04_each_disperser_once', 'Pops.C04_ledger_cell', 'Pops.C04_ledger', 'Pops.C04_pest_nonneg_and_bounded_soil', 'Pops.C04_pest_nonneg_and_bounded', 'Pops.C04_disperseStepSoil_no_release', 'Pops.C04_generate_split', 'Pops.C04_soil_arrivals', 'Pops.C04_soil_disperser_once', 'Pops.C04_ledger_soil', 'Pops.C04_soil_stays_until_aged_out'],
     commands=['hp.spread', 'hp.dispfrom', 'hp.add', 'hp.soil.*', 'hp.soilstate', 'mm.spread'],
     runs={
         "quick": [('h_host', 'pool', 0, 1500), ('h_host', 'soil', 0, 400), ('h_model', 'model', 0, 400), ('h_mmodel', 'multi', 0, 150), ('h_sim', 'sim', 0, 150), ('h_multi', 'pool', 0, 300)],
